@@ -693,3 +693,176 @@ MUTANTS = [
       "    def is_allowed_in_immutable_directory(self):\n        return not self._node.is_mutable()\n",
       "    def is_allowed_in_immutable_directoryX(self):\n        return not self._node.is_mutable()\n", "ANALYSIS-ERROR"),
 ]
+
+
+# ---- C19.15 / C19.16: the node factory and wrap_dirnode_cap over every cap class
+NM_IMPORT = "from allmydata import uri\n\n\n@implementer(INodeMaker)\n"
+NM_CHAIN = ("    def _create_from_single_cap(self, cap):\n"
+            "        if isinstance(cap, uri.LiteralFileURI):\n"
+            "            return self._create_lit(cap)\n"
+            "        if isinstance(cap, uri.CHKFileURI):\n"
+            "            return self._create_immutable(cap)\n"
+            "        if isinstance(cap, uri.CHKFileVerifierURI):\n"
+            "            return self._create_immutable_verifier(cap)\n"
+            "        if isinstance(cap, (uri.ReadonlySSKFileURI, uri.WriteableSSKFileURI,\n"
+            "                            uri.WriteableMDMFFileURI, uri.ReadonlyMDMFFileURI)):\n"
+            "            return self._create_mutable(cap)\n"
+            "        if isinstance(cap, (uri.DirectoryURI,\n"
+            "                            uri.ReadonlyDirectoryURI,\n"
+            "                            uri.ImmutableDirectoryURI,\n"
+            "                            uri.LiteralDirectoryURI,\n"
+            "                            uri.MDMFDirectoryURI,\n"
+            "                            uri.ReadonlyMDMFDirectoryURI)):\n"
+            "            filenode = self._create_from_single_cap(cap.get_filenode_cap())\n"
+            "            return self._create_dirnode(filenode)\n"
+            "        return None\n")
+NM_DIRNODE = ("    def _create_dirnode(self, filenode):\n"
+              "        return DirectoryNode(filenode, self, self.uploader)\n")
+NM_DIRNODE_FROM_CAP = (NM_DIRNODE +
+                       "    def _create_dirnode_from_cap(self, cap):\n"
+                       "        filenode = self._create_from_single_cap(cap.get_filenode_cap())\n"
+                       "        return self._create_dirnode(filenode)\n")
+NM_LOOP = ("    def _create_from_single_cap(self, cap):\n"
+           "        for (factory_name, cap_classes) in _NODE_FACTORIES:\n"
+           "            if isinstance(cap, cap_classes):\n"
+           "                return getattr(self, factory_name)(cap)\n"
+           "        return None\n")
+
+
+def nm_table(last_dir_class):
+    return ("from allmydata import uri\n\n\n"
+            "_NODE_FACTORIES = [\n"
+            "    (\"_create_lit\", (uri.LiteralFileURI,)),\n"
+            "    (\"_create_immutable\", (uri.CHKFileURI,)),\n"
+            "    (\"_create_immutable_verifier\", (uri.CHKFileVerifierURI,)),\n"
+            "    (\"_create_mutable\", (uri.WriteableSSKFileURI,\n"
+            "                         uri.ReadonlySSKFileURI,\n"
+            "                         uri.WriteableMDMFFileURI,\n"
+            "                         uri.ReadonlyMDMFFileURI)),\n"
+            "    (\"_create_dirnode_from_cap\", (uri.DirectoryURI,\n"
+            "                                  uri.ReadonlyDirectoryURI,\n"
+            "                                  uri.ImmutableDirectoryURI,\n"
+            "                                  uri.LiteralDirectoryURI,\n"
+            "                                  uri.MDMFDirectoryURI,\n"
+            "                                  uri.%s)),\n"
+            "]\n\n\n@implementer(INodeMaker)\n") % last_dir_class
+
+
+NM_DICT = ("from allmydata import uri\n\n\n"
+           "_FILE_NODE_FACTORIES = {\n"
+           "    uri.LiteralFileURI: \"_create_lit\",\n"
+           "    uri.CHKFileURI: \"_create_immutable\",\n"
+           "    uri.CHKFileVerifierURI: \"_create_immutable_verifier\",\n"
+           "    uri.WriteableSSKFileURI: \"_create_mutable\",\n"
+           "    uri.ReadonlySSKFileURI: \"_create_mutable\",\n"
+           "    uri.WriteableMDMFFileURI: \"_create_mutable\",\n"
+           "    uri.ReadonlyMDMFFileURI: \"_create_mutable\",\n"
+           "}\n"
+           "_DIRECTORY_CAPS = (uri.DirectoryURI, uri.ReadonlyDirectoryURI, uri.ImmutableDirectoryURI,\n"
+           "                   uri.LiteralDirectoryURI, uri.MDMFDirectoryURI, uri.%s)\n"
+           "\n\n@implementer(INodeMaker)\n")
+NM_DICT_DISPATCH = ("    def _create_from_single_cap(self, cap):\n"
+                    "        factory_name = _FILE_NODE_FACTORIES.get(type(cap))\n"
+                    "        if factory_name is not None:\n"
+                    "            return getattr(self, factory_name)(cap)\n"
+                    "        if not isinstance(cap, _DIRECTORY_CAPS):\n"
+                    "            return None\n"
+                    "        inner = cap.get_filenode_cap()\n"
+                    "        return self._create_dirnode(self._create_from_single_cap(inner))\n")
+WRAP = ("def wrap_dirnode_cap(filecap):\n"
+        "    if isinstance(filecap, WriteableSSKFileURI):\n"
+        "        return DirectoryURI(filecap)\n"
+        "    if isinstance(filecap, ReadonlySSKFileURI):\n"
+        "        return ReadonlyDirectoryURI(filecap)\n"
+        "    if isinstance(filecap, CHKFileURI):\n"
+        "        return ImmutableDirectoryURI(filecap)\n"
+        "    if isinstance(filecap, LiteralFileURI):\n"
+        "        return LiteralDirectoryURI(filecap)\n"
+        "    if isinstance(filecap, WriteableMDMFFileURI):\n"
+        "        return MDMFDirectoryURI(filecap)\n"
+        "    if isinstance(filecap, ReadonlyMDMFFileURI):\n"
+        "        return ReadonlyMDMFDirectoryURI(filecap)\n"
+        "    raise AssertionError(\"cannot interpret as a directory cap: %s\" % filecap.__class__)\n")
+
+
+def wrap_table(ro_mdmf="ReadonlyMDMFDirectoryURI"):
+    return ("_DIRECTORY_CAP_FOR = [\n"
+            "    (WriteableSSKFileURI, DirectoryURI),\n"
+            "    (ReadonlySSKFileURI, ReadonlyDirectoryURI),\n"
+            "    (CHKFileURI, ImmutableDirectoryURI),\n"
+            "    (LiteralFileURI, LiteralDirectoryURI),\n"
+            "    (WriteableMDMFFileURI, MDMFDirectoryURI),\n"
+            "    (ReadonlyMDMFFileURI, %s),\n"
+            "]\n\n\n"
+            "def wrap_dirnode_cap(filecap):\n"
+            "    for (filecap_class, dircap_class) in _DIRECTORY_CAP_FOR:\n"
+            "        if isinstance(filecap, filecap_class):\n"
+            "            return dircap_class(filecap)\n"
+            "    raise AssertionError(\"cannot interpret as a directory cap: %%s\" %% filecap.__class__)\n") % ro_mdmf
+
+
+MUTANTS += [
+    # -- C19.15
+    M("factory-table-ro-mdmf-dir-row-names-the-file-class", NM, NM_IMPORT, nm_table("ReadonlyMDMFFileURI"), "C19.15",
+      edits=[(NM, NM_DIRNODE, NM_DIRNODE_FROM_CAP), (NM, NM_CHAIN, NM_LOOP)],
+      note="seeded C19-I: isinstance chain -> (factory name, cap classes) table; the directory row lists "
+           "ReadonlyMDMFFileURI, so URI:DIR2-MDMF-RO: falls through to None"),
+    M("benign-factory-table", NM, NM_IMPORT, nm_table("ReadonlyMDMFDirectoryURI"), None,
+      edits=[(NM, NM_DIRNODE, NM_DIRNODE_FROM_CAP), (NM, NM_CHAIN, NM_LOOP)],
+      note="the same refactor done faithfully"),
+    M("factory-dict-dir-caps-miss-ro-mdmf", NM, NM_IMPORT, NM_DICT % "ReadonlyMDMFFileURI", "C19.15",
+      edits=[(NM, NM_CHAIN, NM_DICT_DISPATCH)]),
+    M("benign-factory-dict-by-type", NM, NM_IMPORT, NM_DICT % "ReadonlyMDMFDirectoryURI", None,
+      edits=[(NM, NM_CHAIN, NM_DICT_DISPATCH)],
+      note="file caps dispatched through a dict keyed by type(cap), directory caps by one isinstance"),
+    M("factory-chain-drops-literal-directory", NM,
+      "                            uri.LiteralDirectoryURI,\n                            uri.MDMFDirectoryURI,\n",
+      "                            uri.MDMFDirectoryURI,\n", "C19.15"),
+    M("factory-ssk-readcap-made-immutable-node", NM,
+      "        if isinstance(cap, uri.CHKFileURI):\n            return self._create_immutable(cap)\n"
+      "        if isinstance(cap, uri.CHKFileVerifierURI):",
+      "        if isinstance(cap, (uri.CHKFileURI, uri.ReadonlySSKFileURI)):\n            return self._create_immutable(cap)\n"
+      "        if isinstance(cap, uri.CHKFileVerifierURI):", "C19.15",
+      note="an SSK readcap child comes back as an immutable file node: is_mutable() False, allowed in immutable dirs"),
+    M("factory-chk-made-mutable-node", NM,
+      "        if isinstance(cap, (uri.ReadonlySSKFileURI, uri.WriteableSSKFileURI,\n",
+      "        if isinstance(cap, (uri.ReadonlySSKFileURI, uri.WriteableSSKFileURI, uri.LiteralFileURI,\n", "C19.15",
+      edits=[(NM, "        if isinstance(cap, uri.LiteralFileURI):\n            return self._create_lit(cap)\n", "")]),
+    M("factory-dirnode-around-the-directory-cap", NM,
+      "            filenode = self._create_from_single_cap(cap.get_filenode_cap())\n"
+      "            return self._create_dirnode(filenode)\n",
+      "            return self._create_dirnode(self._create_mutable(cap.get_filenode_cap()))\n", "C19.15",
+      note="every directory gets a mutable file node, also DIR2-CHK / DIR2-LIT"),
+    M("benign-factory-chain-hoisted-and-reordered", NM, NM_CHAIN,
+      "    def _create_from_single_cap(self, cap):\n"
+      "        dir_caps = (uri.DirectoryURI, uri.ReadonlyDirectoryURI, uri.ImmutableDirectoryURI,\n"
+      "                    uri.LiteralDirectoryURI, uri.MDMFDirectoryURI, uri.ReadonlyMDMFDirectoryURI)\n"
+      "        if isinstance(cap, dir_caps):\n"
+      "            inner_cap = cap.get_filenode_cap()\n"
+      "            return DirectoryNode(self._create_from_single_cap(inner_cap), self, self.uploader)\n"
+      "        node = None\n"
+      "        if isinstance(cap, uri.CHKFileURI):\n"
+      "            node = self._create_immutable(cap)\n"
+      "        elif isinstance(cap, uri.LiteralFileURI):\n"
+      "            node = self._create_lit(cap)\n"
+      "        elif isinstance(cap, uri.CHKFileVerifierURI):\n"
+      "            node = self._create_immutable_verifier(cap)\n"
+      "        elif cap.__class__ in (uri.ReadonlySSKFileURI, uri.WriteableSSKFileURI,\n"
+      "                               uri.WriteableMDMFFileURI, uri.ReadonlyMDMFFileURI):\n"
+      "            node = self._create_mutable(cap)\n"
+      "        return node\n", None),
+    M("vanish-factory-call", NM,
+      "            node = self._create_from_single_cap(cap)\n", "            node = self._create_from_single_cap(bigcap)\n",
+      "ANALYSIS-ERROR", note="create_from_cap no longer hands the parsed cap to a factory method"),
+    # -- C19.16
+    M("wrap-ro-mdmf-file-cap-as-writeable-dir", U,
+      "        return ReadonlyMDMFDirectoryURI(filecap)\n    raise AssertionError(",
+      "        return MDMFDirectoryURI(filecap)\n    raise AssertionError(", "C19.16"),
+    M("wrap-table-ro-mdmf-row-slip", U, WRAP, wrap_table("MDMFDirectoryURI"), "C19.16",
+      note="sibling of C19-I: chain -> table, one row names the wrong directory class"),
+    M("wrap-drops-literal-directory", U,
+      "    if isinstance(filecap, LiteralFileURI):\n        return LiteralDirectoryURI(filecap)\n", "", "C19.16"),
+    M("benign-wrap-table", U, WRAP, wrap_table(), None),
+    M("vanish-wrap", U, "def wrap_dirnode_cap(filecap):", "def wrap_dirnode_capX(filecap):", "ANALYSIS-ERROR",
+      edits=[(D, "from allmydata.uri import wrap_dirnode_cap\n", "from allmydata.uri import wrap_dirnode_capX as wrap_dirnode_cap\n")]),
+]
